@@ -229,6 +229,7 @@ func loadEnv(t testing.TB, res *Result) *Env {
 				harness("bind: %v", err)
 			}
 			rc.B = bnd
+			keyPools[bnd.Typ] = attrNamePool(bnd)
 			env.Roots = append(env.Roots, rc)
 			env.ByVar[v] = append(env.ByVar[v], rc)
 		}
